@@ -19,7 +19,7 @@ func init() {
 	core.Register(&core.Check{
 		ID:    "C14",
 		Level: "model_checking",
-		Rule: "for each of 8 body shapes (guarded yield then recur; recur then guarded yield; two yields; no recur; keyword arguments; body reading a reassigned outer variable; unguarded infinite) the complete history tree of depth <=5 (thorough 6) over the operations " +
+		Rule: "for each of 10 body shapes (guarded yield then recur; recur then guarded yield; two yields; no recur; keyword arguments; body reading a reassigned outer variable; unguarded infinite; nil first yield; no declared parameters with \\ resp. \\1) the complete history tree of depth <=5 (thorough 6) over the operations " +
 			"{iK := gen.new(0|2), iK := iJ.new(1), iK := iJ (alias), iJ.next, iJ.A, iJ@{..}, iJ$(0)+ (thorough), lim := 1|5} on <=3 iterator variables; states = model states reached, transitions = operations; " +
 			"every path is one program on the real interpreter and every observation along it (value / StopIterErr / collected list) is compared with the model; A and chains are generated only where the model proves the iteration finite; " +
 			"non-trivial = path touching >=2 iterator objects or containing a chain/A; distinct = distinct operation sequence",
@@ -47,6 +47,9 @@ var shapes = []shape{
 	{Name: "outer-variable", Gen: "lim := 3\ngen := <{|i| yield i if i < lim; recur(i + 1)}>"},
 	{Name: "infinite", Gen: "gen := <{|i| yield i; recur(i + 1)}>"},
 	// the first yield of an evaluation is nil for even i; a second yield and a non-nil last statement follow
+	// no declared parameters: the state lives only in the implicit argument variables
+	{Name: "implicit-args", Gen: "gen := <{yield \\ if \\ < 3; recur(\\ + 1)}>"},
+	{Name: "implicit-numbered-args", Gen: "gen := <{yield \\1 if \\1 < 3; recur(\\1 + 1)}>"},
 	{Name: "nil-first-yield", Gen: "gen := <{|i| yield [nil, i][i % 2] if i < 4; yield 99; recur(i + 1); 77}>"},
 }
 
@@ -91,7 +94,7 @@ func (s *mstate) clone() *mstate {
 // next returns (value, stopped) and advances it.
 func (s *mstate) next(it *mit) (int, bool) {
 	switch shapes[s.shape].Name {
-	case "yield-then-recur", "two-yields":
+	case "yield-then-recur", "two-yields", "implicit-args", "implicit-numbered-args":
 		if it.i < 3 {
 			v := it.i
 			it.i++
